@@ -27,6 +27,8 @@ type SigRec struct {
 type sigData struct {
 	id int64
 	mu sync.Mutex
+	// got: the values of the signals this run's handler has recorded, for a step in mode "await"
+	got chan int64
 }
 
 // Fixture is a plugin whose handlers are pure functions of their input that
@@ -67,7 +69,8 @@ func echoInputScope() *schema.ScopeSchema {
 		"payload": prop(schema.NewAnySchema(), false),
 		"mode": propDefault(schema.NewStringEnumSchema(map[string]*schema.DisplayValue{
 			"ok": dv("OK"), "err": dv("Error output"), "undeclared": dv("Undeclared output"), "badout": dv("Bad output"), "panic": dv("Panic"), "gated": dv("Gated"),
-			"badpanic": dv("Panic with a value that is not valid UTF-8"), "badundeclared": dv("Undeclared output ID that is not valid UTF-8")}), `"ok"`),
+			"badpanic": dv("Panic with a value that is not valid UTF-8"), "badundeclared": dv("Undeclared output ID that is not valid UTF-8"),
+			"await": dv("Waits for a signal (step sig)")}), `"ok"`),
 		"tags": prop(schema.NewListSchema(schema.NewStringSchema(nil, schema.IntPointer(16), nil), nil, schema.IntPointer(8)), false),
 		// a one-of with integer keys whose discriminator is not a field of the members: over ATP the key arrives as
 		// whatever integer type the CBOR decoder picks
@@ -139,6 +142,14 @@ func (f *Fixture) echoBehaviour(step string, dataID int64, in map[string]any) (s
 // SignalPanicValue is the value of "v" for which the fixture's signal handler panics.
 const SignalPanicValue = 999999
 
+// SignalSlowValue is the value of "v" for which the fixture's signal handler parks in the gate SlowHandlerGate+<data
+// id> after recording the signal.
+const SignalSlowValue = 888888
+
+// SlowHandlerGate prefixes the gate keys of parked signal handlers. Gate.Waiting does not list them: they are opened
+// with Gate.OpenPrefix.
+const SlowHandlerGate = "slow-handler:"
+
 // NewFixture builds a fresh plugin schema (fresh per-run state).
 func NewFixture() *Fixture {
 	f := &Fixture{Gate: NewGate()}
@@ -166,6 +177,15 @@ func NewFixture() *Fixture {
 			f.mu.Lock()
 			f.Signals = append(f.Signals, SigRec{DataID: d.id, V: v})
 			f.mu.Unlock()
+			if v == SignalSlowValue {
+				// a handler that takes its time: it goes on when the session's calls are over (rig.RunSession), not at
+				// the next quiet moment
+				f.Gate.Wait(fmt.Sprintf("%s%d", SlowHandlerGate, d.id))
+			}
+			select {
+			case d.got <- v:
+			default:
+			}
 		})
 	emitted := schema.NewSignalSchema("progress", sigScope(), nil)
 	sig := schema.NewCallableStepWithSignals[*sigData, map[string]any]("sig", echoInputScope(), echoOutputs(),
@@ -176,16 +196,50 @@ func NewFixture() *Fixture {
 			for i := 0; i < 40; i++ {
 				runtime.Gosched()
 			}
-			return &sigData{id: f.inits.Add(1)}
+			return &sigData{id: f.inits.Add(1), got: make(chan int64, 64)}
 		},
-		func(_ context.Context, d *sigData, in map[string]any) (string, any) {
+		func(ctx context.Context, d *sigData, in map[string]any) (string, any) {
+			awaited := int64(-1)
+			if mode, _ := in["mode"].(string); mode == "await" {
+				// the step needs a signal to finish: it reaches it through the run's step data or not at all
+				// (the step data outlives a run: values left by an earlier run under the same ID are skipped)
+				want, _ := in["n"].(int64)
+			wait:
+				for {
+					select {
+					case v := <-d.got:
+						if v == want {
+							awaited = v
+							break wait
+						}
+					case <-ctx.Done():
+						break wait
+					}
+				}
+			}
 			id, out := f.echoBehaviour("sig", d.id, in)
 			if m, ok := out.(map[string]any); ok && id == "success" {
 				m["data_id"] = d.id
+				if awaited >= 0 {
+					m["signals"] = []int64{awaited}
+				}
 			}
 			return id, out
 		})
-	f.Schema = schema.NewCallableSchema(echo, echo2, sig)
+	// a step whose input is a single-property object in front of a cycle of single-property objects: a scalar given
+	// in place of the input is passed down by the shorthand rule, which has to notice that it goes round in circles
+	chainScope := schema.NewScopeSchema(
+		schema.NewObjectSchema("ChainIn", map[string]*schema.PropertySchema{"list": prop(schema.NewRefSchema("ChainNode", nil), true)}),
+		schema.NewObjectSchema("ChainNode", map[string]*schema.PropertySchema{"next": prop(schema.NewRefSchema("ChainNode", nil), false)}))
+	chain := schema.NewCallableStep[map[string]any]("chain", chainScope, echoOutputs(), nil,
+		func(_ context.Context, in map[string]any) (string, any) {
+			depth := int64(0)
+			for m, _ := in["list"].(map[string]any); m != nil; m, _ = m["next"].(map[string]any) {
+				depth++
+			}
+			return "success", map[string]any{"nonce": "chain", "n2": depth}
+		})
+	f.Schema = schema.NewCallableSchema(echo, echo2, sig, chain)
 	return f
 }
 
@@ -200,5 +254,11 @@ func InProcess(runID, stepID string, input any) (outID string, data any, err err
 			err = fmt.Errorf("panic: %v", p)
 		}
 	}()
+	if m, ok := input.(map[string]any); ok && stepID == "sig" && m["mode"] == "await" {
+		// the signal the step waits for: in-process it is simply there before the step is called
+		if n, ok := m["n"].(int64); ok {
+			_ = f.Schema.CallSignal(context.Background(), runID, stepID, "record", map[string]any{"v": n})
+		}
+	}
 	return f.Schema.CallStep(context.Background(), runID, stepID, input)
 }
